@@ -104,11 +104,32 @@ Proof.
   rewrite cell_expansion by (auto; lia). rewrite Hc. reflexivity.
 Qed.
 
-(* ConvertGfxStateToPngBytes (image handed to the encoder): declared size; RGB / grey: covered
-   pixels show the expansion.  MONO: only when the data are complete (F15). *)
+(* padded mono data read like the original wherever the original covers *)
+Lemma px_pad_mono w h data x y : 0 <= w -> 0 <= x < w -> 0 <= y ->
+  covered 0 w (zlen data) x y = true ->
+  px ((w + 7) / 8) (pad_mono w h data) x y = px ((w + 7) / 8) data x y.
+Proof.
+  intros Hw Hx Hy Hc. unfold covered in Hc. cbn [Z.eqb] in Hc.
+  unfold pad_mono. destruct (zlen data <? ceil_div8 w * h); [|reflexivity].
+  unfold px. f_equal. unfold znth.
+  assert (0 <= y * ((w + 7) / 8) + x / 8) by nia.
+  destruct (Z.ltb_spec (y * ((w + 7) / 8) + x / 8) 0); try lia.
+  apply app_nth1. unfold zlen in Hc. lia.
+Qed.
+
+Lemma zlen_pad_mono w h data : 0 <= w -> 0 <= h -> (w + 7) / 8 * h <= zlen (pad_mono w h data).
+Proof.
+  intros Hw Hh. unfold pad_mono.
+  assert (E : ceil_div8 w = (w + 7) / 8) by (unfold ceil_div8; destruct (Z.ltb_spec w 0); lia).
+  rewrite E. destruct (Z.ltb_spec (zlen data) ((w + 7) / 8 * h)); [|lia].
+  rewrite zlen_app, zlen_zrepeat by lia. lia.
+Qed.
+
+(* ConvertGfxStateToPngBytes (image handed to the encoder): declared size; covered pixels show
+   the expansion, for the three formats and ANY data length (after the F15 repair) *)
 Theorem gfx_state_expansion g :
   0 <= gw g -> 0 <= gh g -> data_ok (gdata g) ->
-  gtype g = 1 \/ gtype g = 2 \/ (gtype g = 0 /\ (gw g + 7) / 8 * gh g <= zlen (gdata g)) ->
+  gtype g = 0 \/ gtype g = 1 \/ gtype g = 2 ->
   exists r, gfx_state_image_loop g = Ok (Some r) /\ rw r = gw g /\ rh r = gh g /\
     forall x y, 0 <= x < gw g -> 0 <= y < gh g ->
       covered (gtype g) (gw g) (zlen (gdata g)) x y = true ->
@@ -118,24 +139,25 @@ Proof.
   destruct o as [r|]; [|destruct P as (? & ? & ?); lia].
   destruct P as (_ & A & B & C). exists r. split; auto. split; auto. split; auto.
   intros x y Hx Hy Hc. rewrite C. unfold gfx_state_at.
-  destruct Hty as [T | [T | [T L]]]; rewrite T in *.
-  - cbn [Z.eqb]. unfold img_from_at. replace (r_in (gw g) (gh g) x y) with true by (unfold r_in; lia).
-    rewrite cell_expansion by (auto; lia). rewrite Hc. reflexivity.
-  - cbn [Z.eqb]. unfold img_from_at. replace (r_in (gw g) (gh g) x y) with true by (unfold r_in; lia).
-    rewrite cell_expansion by (auto; lia). rewrite Hc. reflexivity.
-  - cbn [Z.eqb]. unfold create_from_bytes, new_image, ceil_div8.
+  destruct Hty as [T | [T | T]]; rewrite T in *.
+  - cbn [Z.eqb]. pose proof (zlen_pad_mono (gw g) (gh g) (gdata g) Hw Hh) as L.
+    unfold create_from_bytes, new_image, ceil_div8.
     destruct (Z.ltb_spec (gw g) 0); try lia. cbn [ig gwib].
-    destruct (Z.gtb_spec ((gw g + 7) / 8 * gh g) (zlen (gdata g))); try lia.
+    destruct (Z.gtb_spec ((gw g + 7) / 8 * gh g) (zlen (pad_mono (gw g) (gh g) (gdata g)))); try lia.
     cbn [fst idata ig gwib]. unfold to_image_at.
     replace (r_in (gw g) (gh g) x y) with true by (unfold r_in; lia).
-    rewrite to_image_bit by lia. unfold expansion. cbn [Z.eqb].
+    rewrite to_image_bit by lia. rewrite px_pad_mono by (auto; lia). unfold expansion. cbn [Z.eqb].
     destruct (px ((gw g + 7) / 8) (gdata g) x y); reflexivity.
+  - cbn [Z.eqb]. unfold img_from_at. replace (r_in (gw g) (gh g) x y) with true by (unfold r_in; lia).
+    rewrite cell_expansion by (auto; lia). rewrite Hc. reflexivity.
+  - cbn [Z.eqb]. unfold img_from_at. replace (r_in (gw g) (gh g) x y) with true by (unfold r_in; lia).
+    rewrite cell_expansion by (auto; lia). rewrite Hc. reflexivity.
 Qed.
 
 (* routines agree on covered pixels *)
 Theorem routines_agree g width height :
   0 <= gw g -> 0 <= gh g -> data_ok (gdata g) ->
-  gtype g = 1 \/ gtype g = 2 \/ (gtype g = 0 /\ (gw g + 7) / 8 * gh g <= zlen (gdata g)) ->
+  gtype g = 0 \/ gtype g = 1 \/ gtype g = 2 ->
   exists r1 r2, rwp_to_image_loop g width height = Ok r1 /\ gfx_state_image_loop g = Ok (Some r2) /\
     agree_ok (gtype g) (gw g) (gh g) (zlen (gdata g)) width height
              (centre_offset width (gw g)) (centre_offset height (gh g)) (rat r1) (rat r2) = true.
@@ -169,7 +191,7 @@ Qed.
 
 Theorem expansion_ok_gfx g :
   0 <= gw g -> 0 <= gh g -> data_ok (gdata g) ->
-  gtype g = 1 \/ gtype g = 2 \/ (gtype g = 0 /\ (gw g + 7) / 8 * gh g <= zlen (gdata g)) ->
+  gtype g = 0 \/ gtype g = 1 \/ gtype g = 2 ->
   exists r, gfx_state_image_loop g = Ok (Some r) /\ rw r = gw g /\ rh r = gh g /\
     expansion_ok (gtype g) (gw g) (gh g) (gdata g) (rat r) = true.
 Proof.
@@ -179,23 +201,17 @@ Proof.
   rewrite P by (auto; lia). destruct (expansion _ _ _ x y) as [[[a b] c] d]. unfold rgba_eqb. rewrite !Z.eqb_refl. reflexivity.
 Qed.
 
-(* F15: MONO data shorter than wib*H - CreateFromBytes discards them, so the PNG route shows
-   black where RwpImgToImage shows the data *)
+(* F15 (repaired in /repo 645e4d4): MONO 16x4 with 3 bytes of data - the PNG route used to show
+   black at the covered pixel (0,0); now both routes show it white *)
 Definition f15_gfx : gfx := mkGfx 0 16 4 [255; 255; 255].
-Lemma routines_agree_mono_short_witness :
+Lemma f15_regression :
   exists r1 r2, rwp_to_image_loop f15_gfx 16 4 = Ok r1 /\ gfx_state_image_loop f15_gfx = Ok (Some r2) /\
-    agree_ok 0 16 4 3 16 4 0 0 (rat r1) (rat r2) = false /\
-    rat r1 0 0 = c_white /\ rat r2 0 0 = c_black /\ covered 0 16 3 0 0 = true.
+    covered 0 16 3 0 0 = true /\ rat r1 0 0 = c_white /\ rat r2 0 0 = c_white /\ rat r2 8 1 = c_black.
 Proof.
   destruct (rwp_to_image_ok f15_gfx 16 4 ltac:(simpl; lia) ltac:(simpl; lia)) as (r1 & E1 & _ & _ & C1).
   destruct (gfx_state_ok f15_gfx ltac:(simpl; lia) ltac:(simpl; lia)) as (o & E2 & P).
   destruct o as [r2|]; [|destruct P as (P & _); exfalso; apply P; reflexivity].
   destruct P as (_ & _ & _ & C2).
-  exists r1, r2. split; auto. split; auto.
-  assert (A1 : rat r1 0 0 = c_white) by (rewrite C1; reflexivity).
-  assert (A2 : rat r2 0 0 = c_black) by (rewrite C2; reflexivity).
-  split; [|auto].
-  destruct (agree_ok 0 16 4 3 16 4 0 0 (rat r1) (rat r2)) eqn:Q; [|reflexivity].
-  unfold agree_ok in Q. pose proof (all_rect_elim _ _ _ _ _ Q 0 0 ltac:(lia) ltac:(lia)) as Q0.
-  cbv beta in Q0. rewrite !Z.add_0_l, A1, A2 in Q0. vm_compute in Q0. discriminate.
+  exists r1, r2. split; auto. split; auto. split; [reflexivity|].
+  split; [rewrite C1; reflexivity|]. split; rewrite C2; reflexivity.
 Qed.
